@@ -364,6 +364,7 @@ Proof.
   assert (Sr : sqrt (radius * radius) = radius) by (apply sqrt_square; lra).
   unfold m, cyl_mesh_rim, cyl_pot_ok, cyl_medial_pot, cyl_slack. rewrite half_R.
   cbn [mul sub div zero opp ROps]. replace (/ 2 * len) with hl by (unfold hl; lra).
+  change (len / 2) with hl.
   (* the outer vertices: on the boundary, inside *)
   assert (Oin : Forall (in_cyl radius hl) (cyl_outer_verts (O := ROps) hl rim)).
   { apply (outer_props _ radius); try assumption; unfold in_cyl; cbn [vx vy vz];
@@ -418,7 +419,8 @@ Proof.
         { unfold s. split; [apply Rdiv_lt_0_compat; lra|]. apply (Rmult_lt_reg_r radius); [assumption|].
           unfold Rdiv. rewrite Rmult_assoc, Rinv_l by lra. lra. }
         replace (x * s * (x * s) + y * s * (y * s)) with ((radius * radius) * (s * s)) by (rewrite <- Hc; ring).
-        nra.
+        assert (S2 : s * s <= 1) by nra. assert (R2 : 0 <= radius * radius) by nra.
+        generalize dependent (radius * radius). generalize dependent (s * s). intros. nra.
     + apply Forall2_app; [apply Forall2_map_const; apply Od; lra|].
       assert (Ec : Rmin (radius - 0) (hl - 0) = hl).
       { unfold Rmin. destruct (Rle_dec _ _); lra. }
